@@ -367,3 +367,13 @@ def validate_judged(chk, module, jobs, nproc=8, timeout=2400, chunk=0):
             chk.sample(dict(set=setno, event=brief(evs[min(3, len(evs) - 1)])))
     chk.add("events_judged_by_spec", judged)
     return mism, mags
+
+
+def nohooks_leg(chk, scenario, sets=(44, 65, 87), profile="release", **kw):
+    """The same API-level scenario on a harness built against the library WITHOUT the verif-hooks feature: what the
+    hooks observe must not differ from what an ordinary user gets (and nothing keyed on that feature can hide)."""
+    bindir = vlib.build_harness(profile, hooks=False)
+    tr = api_traces(chk, bindir, scenario, sets=sets, outdir=os.path.join(chk.workdir, "nohooks_" + scenario), **kw)
+    n = validate_api(chk, {"nohooks-%s-%d" % (scenario, s): p for s, p in tr.items()}, key_of=lambda e: "nohooks:%s:%s" % (scenario, e.get("ev", "")))
+    chk.leg("same scenario, library built without verif-hooks: " + scenario, events=n)
+    return n
